@@ -112,6 +112,18 @@ Proof.
 Qed.
 Print Assumptions C03_abmd_resumes.
 
+(* ALB (adaptive linear bias, one variable; the update as repaired on fix-C03-6: the coupling constant that gave the
+   force of the last step is part of the state and is applied again when that step is recomputed), every carrier:
+   energy, force and the complete state (set point, current coupling, range, rate, accumulated steps, running mean
+   and variance, step count, equilibration flag). *)
+Theorem C03_alb_resumes :
+  forall (T : Type) (O : NumOps T),
+    resumes_like_uninterrupted (alb_machine O) (fun _ => True) eq eq eq /\
+    saves_what_it_loaded (alb_machine O) (fun _ => True) eq /\
+    resumes_repeatedly (alb_machine O) (fun _ => True).
+Proof. exact alb_resumes. Qed.
+Print Assumptions C03_alb_resumes.
+
 (* A system (over the reals): an extended-Lagrangian variable (optional Langevin term and reflecting
    boundaries) driven by any number of restraints, together with any number of restraints, histograms and
    ABMD biases on plain variables: reported extended value, spring force on the atoms, every bias output,
